@@ -23,7 +23,7 @@ Trees use the canonical format of core.canon; an absent value is
 """
 from .gen import (NAME, NUM, STR, DATE, KWVAL, BEGIN_G, BEGIN_O, END_G,
                   END_O, END, EQ, COMMA, LP, RP, LB, RB, SEMI, UNITS,
-                  PARTIAL)
+                  PARTIAL, BADUNITS)
 
 STRICT = ("PVL", "ODL", "PDS3")
 TOLERANT = ("ISIS", "default")
@@ -52,7 +52,15 @@ class Recogniser:
 
     def kind(self, off=0):
         j = self.i + off
-        return self.t[j].kind if j < len(self.t) else None
+        if j >= len(self.t):
+            return None
+        t = self.t[j]
+        if self.config == "ISIS" and t.kind in (BEGIN_G, BEGIN_O) and \
+                t.text.lower().startswith("begin_"):
+            # ISIS has no BEGIN_GROUP / BEGIN_OBJECT keywords (ISISGrammar's
+            # docstring): there the word is an ordinary name
+            return NAME
+        return t.kind
 
     def tok(self):
         return self.t[self.i]
@@ -70,8 +78,8 @@ class Recogniser:
                 if top:
                     return items
                 raise Reject("block left open at end of text")
-            if k == PARTIAL:
-                raise Reject("unterminated token")
+            if k in (PARTIAL, BADUNITS):
+                raise Reject("unterminated or malformed delimited token")
             if k == END:
                 if top:
                     return items
@@ -118,8 +126,8 @@ class Recogniser:
                 and self.value_absent_ok():
             self.n_empty += 1
             return ("empty", eq_index)
-        if k == PARTIAL:
-            raise Reject("unterminated token")
+        if k in (PARTIAL, BADUNITS):
+            raise Reject("unterminated or malformed delimited token")
         if k in SIMPLE:
             tok = self.tok()
             self.i += 1
@@ -136,6 +144,8 @@ class Recogniser:
             # (a keyword or delimiter can never be an element: even the
             # tolerant rule only covers the value directly after '=')
             raise Reject("expected a value, found %s" % (k,))
+        if self.kind() == BADUNITS:
+            raise Reject("units delimiter inside a units expression")
         if self.kind() == UNITS:
             if self.config in ("ODL", "PDS3") and not numeric:
                 raise Reject("units after a non-number")
@@ -165,9 +175,6 @@ class Recogniser:
 
     def block(self):
         bk = self.kind()
-        if self.config == "ISIS" and self.tok().text.lower().startswith(
-                "begin_"):
-            raise Abstain("BEGIN_ form under ISIS")
         self.i += 1
         if self.kind() != EQ:
             raise Reject("begin keyword not followed by '='")
